@@ -107,13 +107,22 @@ def run(chk):
                 loads[(True, False, oname)] = cc.load(zd, cleaned=False, convert_units=True, fields=[str(c) for c in order])
             except Exception as e:  # noqa
                 chk.violation(f'load-raises-{type(e).__name__}-{oname}', f'Box={box} Vel={vel} explicit field list ({oname} order): {type(e).__name__}: {e}', dict(box=box, vel=vel))
+        # derived columns requested alone or with only some of their inputs (their un-requested inputs become temporary columns), and small random subsets
+        subsets = [(True, False, ['sigmavMid_com']), (False, True, ['sigmavMid_L2com', 'N']), (True, True, ['sigmavMid_com', 'sigmavMin_com']), (False, False, ['sigmavMaj_L2com', 'sigmavMid_L2com']),
+                   (True, bool(pi % 2), [str(c) for c in rng.choice(allcols, 3, replace=False)]), (bool(pi % 2), True, [str(c) for c in rng.choice(allcols, 2, replace=False)])]
+        for si, (cv, cl, flds) in enumerate(subsets):
+            try:
+                loads[(cv, cl, f'subset{si}')] = cc.load(zd, cleaned=cl, convert_units=cv, fields=flds)
+            except Exception as e:  # noqa
+                chk.violation(f'load-raises-{type(e).__name__}-subset', f'Box={box} Vel={vel} convert_units={cv} cleaned={cl} fields={flds}: {type(e).__name__}: {e}', dict(box=box, vel=vel))
         for key3, cobj in loads.items():
             convert, cleaned = key3[0], key3[1]
             b, v = (box, vel) if convert else (1, 1)
             H = cobj.halos
+            partial = len(key3) == 3 and str(key3[2]).startswith('subset')          # a load of a few columns only
             for col, kind in kinds.items():
                 if col not in H.colnames:
-                    if not (cleaned and col == 'N'):
+                    if not (cleaned and col == 'N') and not partial:
                         chk.violation(f'missing-column-{col}', f'fields=all did not load {col}', dict(col=col))
                     continue
                 got = np.asarray(H[col]).astype(np.float64)
@@ -150,6 +159,8 @@ def run(chk):
                                   f'expected {wj!r} for stored sample (raw={rows[j][0]}/64, i16 row, ref={rows[j][2]}/64)', dict(col=col, box=box, vel=vel, convert=convert, row=j))
             # identity: Min^2 + Mid^2 + Maj^2 = sigmav3d^2 in the same units
             for com in ('_com', '_L2com'):
+                if not all(('sigmav' + w_ + com) in H.colnames for w_ in ('Min', 'Mid', 'Maj')) or ('sigmav3d' + com) not in H.colnames:
+                    continue
                 lhs = sum(np.asarray(H['sigmav' + w + com]).astype(np.float64) ** 2 for w in ('Min', 'Mid', 'Maj'))
                 rhs = np.asarray(H['sigmav3d' + com]).astype(np.float64) ** 2
                 okm = np.isfinite(lhs)
